@@ -15,6 +15,7 @@ import FB.MakeDirs
 import FB.MakeRoom
 import FB.Conc
 import FB.ConcDirs
+import FB.ConcDirsF
 open FB FB.Wire
 open Lean (Json)
 
@@ -240,6 +241,22 @@ def runConc (j : Lean.Json) : Except String Lean.Json := do
       let s := FB.ConcDirs.run p (FB.ConcDirs.init p []) sc
       let done := (List.range paths.length).all fun i => s.pc i == .registered
       s!"created={showL s.b.created} dirs={showL s.dirs} done={done}"
+    return Json.mkObj [("schedules", .num (.fromNat scheds.length)), ("outcomes", .arr ((dedupStr outs).map .str).toArray)]
+  | "DIRSF" =>
+    -- FB.ConcDirsF: as DIRS, and the threads listed in "fails" run error_building_file after registering
+    let paths ← (← (← j.getObjVal? "paths").getArr?).toList.mapM fun x => do pure (parsePath (← x.getStr?))
+    let failsL ← (← (← j.getObjVal? "fails").getArr?).toList.mapM fun x => getNat x
+    let p : Nat → FB.Path := fun i => paths.getD i ["unused"]
+    let fails : Nat → Bool := fun i => failsL.contains i
+    let steps := paths.map fun q => 2 * q.length + 2
+    let scheds := interleavings steps
+    let showL := fun (l : List FB.Path) => ",".intercalate ((l.map fun d => "/".intercalate d).toArray.qsort (· < ·)).toList
+    let outs := scheds.map fun sc =>
+      let s := FB.ConcDirsF.run p fails (FB.ConcDirsF.init p []) sc
+      let done := (List.range paths.length).all fun i => s.pc i == (if fails i then .failed else .registered)
+      -- the directories that are virtually removed are `rmdir`ed when the build commits
+      let left := s.dirs.filter fun d => !s.b.errorCreated.contains d
+      s!"created={showL s.b.created} dirs={showL left} done={done}"
     return Json.mkObj [("schedules", .num (.fromNat scheds.length)), ("outcomes", .arr ((dedupStr outs).map .str).toArray)]
   | p => throw s!"unknown protocol {p}"
 
